@@ -122,13 +122,15 @@ CHECKS = {
              "Q of the tie) every step start EvStep t H has 0 <= t and 0 <= H <= time_step - t, and every attempt is at most as "
              "large as the step start or attempt before it, after any number of rejections - so no attempt exceeds the "
              "remaining interval (C07_no_attempt_exceeds_the_remaining_interval, ..._step_start_..., "
-             "..._attempt_never_larger_than_the_one_before; sizes_ok is shown to discriminate). Controller formulas (first H, growth "
+             "..._attempt_never_larger_than_the_one_before; sizes_ok is shown to discriminate); no step start or attempt exceeds any bound that lies above h_min, "
+             "h_max' = min(time_step, h_max_) and the first step size (C07_no_step_exceeds_h_max); backward Euler: every time-advancing "
+             "step has 0 <= H <= time_step - t (C07_backward_euler_steps_within_the_remaining_interval). Controller formulas (first H, growth "
              "clamp, no growth after rejection, fixed cut after repeated rejections, max-steps guard, BE reductions/doubling) "
              "are the model's definitions, compared exactly with the real templates over every accept/reject word; "
              "NormalizedError and IsConverged are compared with the real functions on every shape incl. partial groups. "
              "Assembled solvers with h_start = time step: one accepted attempt (the builder hands h_start on). The norm is evaluated twice on one State with different tolerances. Oracles: controller formula, h_max / remaining interval, repeated-rejection cut, BE step-size bookkeeping.",
         note="PARTIAL proof: the remaining-interval bound and the no-growth-within-a-step rule are theorems in exact arithmetic; "
-             "the h_max bound, the exact controller formula and rounding in binary64 are validated (tie + oracle), not theorems. "
+             "the exact controller formula and rounding in binary64 are validated (tie + oracle), not theorems. "
              "Known finding: h_max <= 10*round_off is overridden by the DELTA_MIN guard.",
         technique="Coq proof (accept-rule and step-size loop invariants; permutation of visited slots; RMS) + scripted-policy exact tie + oracles",
         ref="6 C07"),
